@@ -256,7 +256,12 @@ finish:
   child.err = redirect_destroy(child.err, options.redirect.err.type);
 #endif
 
-  pipe_destroy(child.exit);
+  // In the forked child (`r == 0`), the write end of the exit pipe has to stay
+  // open for as long as the child is alive: the parent detects the child's exit
+  // when it is closed.
+  if (r != 0) {
+    pipe_destroy(child.exit);
+  }
 
   if (r < 0) {
     process->handle = process_destroy(process->handle);
